@@ -236,7 +236,7 @@ class PredAbs:
     init    : formula assumed at entry
     """
 
-    def __init__(self, f, vocab, leaf, effects, init=T, track_bools=False):
+    def __init__(self, f, vocab, leaf, effects, init=T, track_bools=False, eh_after=False):
         self.f = f
         self.leaf = leaf
         self.effects = effects
@@ -258,7 +258,7 @@ class PredAbs:
                 self._leaf0, self._eff0 = leaf, effects
         self.v = vocab
         st0 = vocab.assume(vocab.full, init)
-        self.flow = Forward(f, st0, self._transfer, lambda a, b: a | b, edge=self._edge)
+        self.flow = Forward(f, st0, self._transfer, lambda a, b: a | b, edge=self._edge, eh_after=eh_after)
 
     def _leaf_b(self, n):
         r = self._leaf0(n)
